@@ -43,6 +43,7 @@ func init() {
 			"an eighth of the JSON/XML values have no encoding (the producer refuses them), half of the ReadCloser payloads fail on Close: such a request must fail or else be sent like any other; a request without payload carries no Content-Type. " +
 			"a sixth of the value payloads, and a sweep over every media type with a producer x GetBody 0/1/3 times or no auth writer, are pointers (*struct, *string, *map) and typed-nil pointers (a nil *struct, *string, *map, *[]byte, *[][]string held in the interface): what the producer writes for them into a plain buffer is what must be sent and shown, and what it refuses must make the request fail. " +
 			"per shard 60 (600) value requests are made after 1-2 others on the same Runtime for the same media type under the same spelling (as registered; a variant with parameters or upper-case letters that is a key of Producers; one that is not; a vendor type the caller registers), the producer registered for that type (the standard one, or one of two of the caller's own that mark what they write) being replaced between the requests, also at random in the mixes: the body is the encoding of the producer registered when the request is made. " +
+			"a variant spelling that is a key of Producers has, in half of the value requests that offer one, in the histories and in a sweep over every variant x offer shape x GetBody count, a producer of the caller's own registered under it that differs from the one under the key's bare lower-case form: the body sent under that spelling is the encoding of the producer registered under that spelling. " +
 			"per shard 60 (600) upload requests, and a fifth of those of the mixes, have a params writer that calls SetFileParam twice for one field, the second call listing some of the same values again and dropping 0-2 others; the values are pointers (*upload, *os.File, runtime.NamedReader) and comparable structs (around a harness source, around a real *os.File, with and without ContentType): every file of the final list arrives in full, exactly once, a dropped one is not sent and is closed; a harness source that is closed has nothing more to read, like a file. " +
 			"non-trivial = every judged request; distinct by (payload kind, media type, value kind, #fields, file name/kind/length/chunking/declared type, GetBody count)",
 		Assumptions: []string{
@@ -50,6 +51,7 @@ func init() {
 			"multipart parts of different fields may come in any order (fields and files are kept in maps); every value and file must appear exactly once; the values of one field and the files of one field are lists: they are sent in the order in which they were given to SetFormParam / SetFileParam (urlencoded bodies likewise, per field)",
 			"a file whose reader returns an error other than io.EOF has no full content to send: the request must not be reported as sent (Submit fails, or the transport is given a body whose Read fails)",
 			"the Runtime is configured for each request (transport, default media type, debug flag, the producers registered: by assignments to the Runtime's own Producers map); what was submitted on it before does not enter the expectation: the producer of the chosen media type is the one registered when the request is made",
+			"when Producers has a key spelled exactly like the media type that is chosen (and that the Content-Type names), the producer under that key is the producer for the chosen media type, whatever is registered under the key's bare lower-case form; cases where only a DIFFERENT parametrised spelling is a key are not generated",
 			"the files of a field are the ones given to the last SetFileParam call for it, whatever an earlier call had listed; the files an earlier call listed and the last one does not are the request's to close (nobody else holds them); upload values that cannot be compared (a struct holding a slice) are not generated",
 			"the type sniffed from content is http.DetectContentType of its first min(512, len) bytes (the function's documented window)",
 			"the content of an upload is what its reader has to offer from the position at which it is handed over",
@@ -175,6 +177,12 @@ type Case struct {
 	// VariantNotKey: the Variant spelling is what the operation offers, and it is NOT a key of Producers: the
 	// producer is registered under MediaType only.
 	VariantNotKey bool `json:"variantNotRegistered,omitempty"`
+	// VariantProducer: the Variant spelling is a key of Producers with a producer OF ITS OWN (Producers[Variant] = p,
+	// p writing the line "<<VariantProducer>>" first), next to the one registered under MediaType, the key's bare
+	// lower-case form (two revisions of a vendor format told apart by a parameter; a charset-specific producer). The
+	// operation offers the Variant spelling: the producer registered under the very spelling that is chosen, and that
+	// the Content-Type then names, is the one whose encoding is owed. Ignored with VariantNotKey.
+	VariantProducer string `json:"variantProducer,omitempty"`
 	// Replaced: files that the params writer lists in a first SetFileParam call for their field (after the Early
 	// files of Files for that field) and not in the second, final one (which lists the field's files of Files). They
 	// are not part of the request: they must not be sent, and they are closed. Ignored for a field without final files.
@@ -203,6 +211,20 @@ type typedFileValue struct {
 }
 
 func (t typedFileValue) ContentType() string { return t.contentType }
+
+// ownVariantProducer: the variant spelling offered is a key of Producers that has a producer of its own.
+func (c *Case) ownVariantProducer() bool {
+	return c.Variant != "" && !c.VariantNotKey && c.VariantProducer != ""
+}
+
+// owedKey is the key of Producers whose producer has to encode a value sent under the spelling meant to be chosen:
+// the spelling itself when the caller registered a producer of its own under it, else the media type it spells.
+func (c *Case) owedKey() string {
+	if c.ownVariantProducer() {
+		return c.Variant
+	}
+	return c.MediaType
+}
 
 func (c *Case) twoSteps() bool {
 	if len(c.Replaced) > 0 {
@@ -601,7 +623,12 @@ var strippers = []func(*Case) bool{
 	func(c *Case) bool { had := c.BodyChunk > 0 || c.BodyEOF; c.BodyChunk, c.BodyEOF = 0, false; return had },
 	func(c *Case) bool { had := c.Consumes != ""; c.Consumes, c.Other = "", ""; return had },
 	func(c *Case) bool { had := c.VariantNotKey; c.VariantNotKey = false; return had },
-	func(c *Case) bool { had := c.Variant != ""; c.Variant, c.VariantNotKey = "", false; return had },
+	func(c *Case) bool { had := c.ownVariantProducer(); c.VariantProducer = ""; return had },
+	func(c *Case) bool {
+		had := c.Variant != ""
+		c.Variant, c.VariantNotKey, c.VariantProducer = "", false, ""
+		return had
+	},
 	func(c *Case) bool { had := c.Producer != ""; c.Producer = ""; return had },
 	func(c *Case) bool {
 		had := c.twoSteps()
@@ -702,6 +729,15 @@ func submitOn(r *client.Runtime, sw *switchTransport, standard map[string]rt.Pro
 	}
 	if c.Variant != "" && !c.VariantNotKey {
 		r.Producers[c.Variant] = producers[c.MediaType]
+	}
+	if c.ownVariantProducer() {
+		inner := standard[c.MediaType]
+		if inner == nil {
+			inner = rt.JSONProducer()
+		}
+		p := callerProducer{tag: c.VariantProducer, inner: inner}
+		r.Producers[c.Variant], producers[c.Variant] = p, p
+		class("media-type-variant/a-key-of-Producers-with-a-producer-of-its-own")
 	}
 	if c.Variant != "" && c.VariantNotKey {
 		class("media-type-variant/not-a-key-of-Producers")
@@ -933,7 +969,7 @@ func submitOn(r *client.Runtime, sw *switchTransport, standard map[string]rt.Pro
 			tag = "pointer-value/" + c.ValueKind
 		}
 		var refusal error
-		prod := producers[c.MediaType]
+		prod := producers[c.owedKey()]
 		if prod != nil {
 			if ppv, _ := mon.Catch(func() { refusal = prod.Produce(&bytes.Buffer{}, valueFor(c.ValueKind, c.BodyLen)) }); ppv != nil {
 				// the producer itself panics for the value, on a plain buffer: nothing of the transport's (C15 judges producers)
@@ -1053,6 +1089,11 @@ func submitOn(r *client.Runtime, sw *switchTransport, standard map[string]rt.Pro
 		}
 		var want bytes.Buffer
 		prod := producers[base]
+		if first {
+			// the spelling meant to be chosen is the one named: the producer registered under that very spelling, when
+			// the caller registered one, else the one of the media type it spells
+			prod = producers[c.owedKey()]
+		}
 		if prod == nil {
 			class("no-producer")
 			return nil
@@ -1416,6 +1457,9 @@ func (c *Case) decorations() string {
 	if c.Variant != "" && c.VariantNotKey {
 		f += "/variant-not-a-key-of-producers"
 	}
+	if c.ownVariantProducer() {
+		f += "/variant-key-with-a-producer-of-its-own"
+	}
 	if c.Producer != "" {
 		f += "/producer-registered-by-the-caller"
 	}
@@ -1650,6 +1694,41 @@ func run(m *mon.M) {
 		m.Begin(c)
 		runCase(m, c)
 	}
+	// (7) every variant spelling as a key of Producers with a producer of its own next to the one registered under the
+	// key's bare form (the standard one, or one of the caller's), offered in every shape of the consumes list, with and
+	// without an authentication writer that asks for the body
+	k = 0
+	var variantTypes []string
+	for mt := range variantsOf {
+		variantTypes = append(variantTypes, mt)
+	}
+	sort.Strings(variantTypes)
+	for _, mt := range variantTypes {
+		for _, variant := range variantsOf[mt] {
+			for _, shape := range append([]string{""}, shapes...) {
+				for _, gb := range getBodies {
+					if k++; k%m.NShards != m.Shard {
+						continue
+					}
+					if m.Quick() && shape != "" && r.Intn(2) == 0 {
+						continue
+					}
+					ks := producerKinds[mt]
+					c := &Case{Method: []string{"POST", "PUT", "PATCH"}[k%3], MediaType: mt, Payload: "value", ValueKind: ks[r.Intn(len(ks))], BodyLen: []int{0, 5, 700}[(k/3)%3], GetBody: gb,
+						Variant: variant, VariantProducer: variantProducers[k%2], Consumes: shape}
+					if shape == "then-other" || shape == "empty-then-two" {
+						c.Other = "text/html"
+					}
+					if mt == vendorType || r.Intn(3) == 0 {
+						c.Producer = callerProducers[r.Intn(len(callerProducers))]
+					}
+					decorateAuth(r, c)
+					m.Begin(c)
+					runCase(m, c)
+				}
+			}
+		}
+	}
 }
 
 var mixTypes = []string{"application/json", "application/xml", "application/x-yaml", "text/plain", "text/html", "text/csv", "application/octet-stream", "multipart/form-data", "application/x-www-form-urlencoded"}
@@ -1754,9 +1833,11 @@ var (
 		"text/plain":               {"text/plain; charset=utf-8", "TEXT/plain"},
 		"application/xml":          {"application/xml; charset=utf-8"},
 		"application/octet-stream": {"application/octet-stream; type=x"},
-		vendorType:                 {vendorType + "; version=1", "Application/vnd.ACME+json"},
+		vendorType:                 {vendorType + "; version=1", "Application/vnd.ACME+json", vendorType + "; version=2"},
 	}
 	callerProducers = []string{"envelope-1", "envelope-2"}
+	// what the caller's producers registered under a variant spelling (a key with parameters or capitals) mark
+	variantProducers = []string{"revision-2", "revision-3"}
 	shapes          = []string{"empty-first", "none", "all-empty", "then-other", "empty-then-two"}
 )
 
@@ -1775,6 +1856,9 @@ func decorate(r *rand.Rand, c *Case) {
 		if vs := variantsOf[c.MediaType]; len(vs) > 0 {
 			c.Variant = vs[r.Intn(len(vs))]
 			c.VariantNotKey = r.Intn(2) == 0
+			if !c.VariantNotKey && c.Payload == "value" && r.Intn(2) == 0 {
+				c.VariantProducer = variantProducers[r.Intn(len(variantProducers))]
+			}
 		}
 	}
 	if !hasForm && c.Payload == "value" && r.Intn(8) == 0 {
@@ -1841,6 +1925,7 @@ func genProducerHistory(r *rand.Rand) *Case {
 		c.Variant = vs[r.Intn(len(vs))]
 		c.VariantNotKey = r.Intn(4) != 0
 	}
+	ownKey := c.Variant != "" && !c.VariantNotKey && r.Intn(2) == 0
 	switch r.Intn(6) {
 	case 0:
 		c.Consumes = "empty-first"
@@ -1862,6 +1947,9 @@ func genProducerHistory(r *rand.Rand) *Case {
 	one := func(reg string) Case {
 		q := *c
 		q.Producer = reg
+		if ownKey && r.Intn(4) != 0 { // the variant key's own producer comes, goes and changes between the requests too
+			q.VariantProducer = variantProducers[r.Intn(len(variantProducers))]
+		}
 		ks := producerKinds[mt]
 		q.ValueKind = ks[r.Intn(len(ks))]
 		q.BodyLen = []int{0, 5, 40, 700}[r.Intn(4)]
